@@ -84,8 +84,11 @@ def build(prop, beh, idx, rng, crash_k=None):
                           {"op": "open", "c": fresh(), "mode": "ro", "perm": rng.randrange(6)},
                           {"op": "open", "c": "rec", "mode": "rw", "perm": rng.randrange(6), "when": 900},
                           {"op": "reach", "tag": "crash"},
-                          {"op": "stmt", "c": "rec", "id": "rc1", "kind": "ins", "key": "i:77", "cols": {"a": "t:rec"}, "wt": 901},
-                          {"op": "open", "c": fresh(), "mode": "ro", "perm": rng.randrange(6)},
+                          {"op": "stmt", "c": "rec", "id": "rc1", "kind": "ins", "key": "i:77", "cols": {"a": "t:rec"}, "wt": 901}]
+                # the recovered table is USED: every key of the history (purged ones among them) is written again
+                for j, kk in enumerate(sorted(set(keymap.values()))):
+                    steps.append({"op": "stmt", "c": "rec", "id": "rk%d" % j, "kind": "ins", "key": kk, "cols": {"a": "t:re%d" % j}, "wt": 902 + j})
+                steps += [{"op": "open", "c": fresh(), "mode": "ro", "perm": rng.randrange(6)},
                           {"op": "rows", "c": "rec"},
                           {"op": "vacuum", "c": "rec", "cutoff": cutoff},
                           {"op": "rows", "c": "rec", "same": "C09"}, {"op": "reach", "tag": "crash"},
@@ -105,7 +108,25 @@ def build(prop, beh, idx, rng, crash_k=None):
         else:
             raise vf.MachineryError("unknown vacuum step %r" % (st,))
     writers = sorted({st["c"] for st in beh if st["op"] in ("open", "refresh")})
-    if "crash" not in feats:
+    if "crash" not in feats and not prefill and rng.random() < 0.4:
+        # the table is emptied: every key is deleted, a first vacuum (cutoff after the deletes, before the creation time of
+        # the later versions) purges every row, a second one with a late cutoff must still reclaim the superseded versions
+        steps.append({"op": "open", "c": "e1", "mode": "rw", "perm": rng.randrange(6), "when": 930})
+        for j, k in enumerate(sorted(set(keymap.values()))):
+            nst += 1
+            steps.append({"op": "stmt", "c": "e1", "id": "e%d" % nst, "kind": "del", "key": k, "cols": {}, "wt": 932 + j})
+        save("e1")
+        steps += [{"op": "refresh", "c": "e1", "when": 990, "perm": rng.randrange(6)}, {"op": "rows", "c": "e1"},
+                  {"op": "reach", "tag": "before"}, {"op": "vacuum", "c": "e1", "cutoff": 940},
+                  {"op": "rows", "c": "e1", "same": "C09"}, {"op": "dump", "c": "e1", "tag": "vacdump"}, {"op": "reach", "tag": "after"},
+                  {"op": "open", "c": fresh(), "mode": "ro", "perm": rng.randrange(6)},
+                  {"op": "reach", "tag": "before"}, {"op": "vacuum", "c": "e1", "cutoff": 2000},
+                  {"op": "rows", "c": "e1", "same": "C09"}, {"op": "dump", "c": "e1", "tag": "vacdump"}, {"op": "reach", "tag": "after"},
+                  {"op": "vacuum", "c": "e1", "cutoff": 2000, "tag": "again"}, {"op": "reach"},
+                  {"op": "stmt", "c": "e1", "id": "e%d" % (nst + 1), "kind": "ins", "key": "i:79", "cols": {"a": "t:again"}, "wt": 995},
+                  {"op": "rows", "c": "e1"}, {"op": "open", "c": fresh(), "mode": "ro"}, {"op": "bucket"}]
+        feats.add("emptied")
+    elif "crash" not in feats:
         for wv in writers:
             nst += 1
             # a writer refreshes before it writes again after somebody's vacuum (documented usage, Vacuum.tla `stale`)
@@ -157,11 +178,11 @@ def generate(workdir, prop, tier, rng):
     add(b, 350 if tier == "quick" else 6000)
     scen = [build(prop, x, i, rng) for i, x in enumerate(behs)]
     ncrash = 0
-    if prop == "C09":
+    if prop in ("C09", "C04"):
         # crash-point enumeration inside vacuum for a subset of the behaviours
         sub = behs[:: max(1, len(behs) // (25 if tier == "quick" else 300))]
         for j, x in enumerate(sub):
-            for k in range(0, 9):
+            for k in range(0, 9 if prop == "C09" else 13):
                 scen.append(build(prop, x, 100000 + j, rng, crash_k=k))
                 ncrash += 1
     notes.append("%d crash-point scenarios (k = 0..8 mutating requests into the last vacuum)" % ncrash)
